@@ -356,7 +356,10 @@ def _summarize(prog, qual, own=True):
     rb = {"entries": {}, "conds": None}
 
     def read_back(w):
-        if not rb["entries"] or not isinstance(w, Rat) or "getitem(" not in w.key():
+        if not rb["entries"] or not isinstance(w, Rat):
+            return w
+        wk = w.key()
+        if not any(("getitem(" + dk + ",") in wk for (dk, _ik) in rb["entries"]):
             return w
         cur = rb["conds"]
 
